@@ -3,9 +3,11 @@ import Cfdm.Spec.Constructs
 /-
 Driver for C02.
 
-  C02.hist init=<state> ops=<op>;<op>;…   → P=<trace> O=<trace>
+  C02.hist init=<state> ops=<op>;<op>;…   → I=<inv of the start state> P=<trace>
      trace = <step>;;<step>…   step = <ok|rej>@<inv 0|1>@<state after the operation>
-     P = the container with the proposed patches, O = the container as coded
+     P = the container as coded at /repo HEAD (`step`)
+     The state after a REJECTED `transpose` / `insert_dimension` with constructs=1 and inplace=1 is printed
+     as `~` (it depends on the order in which the dictionaries are walked; the history ends there).
 
 <state> = C[<con>,…]|T[<key>:<type>,…]|X[<key>:<keys>,…]|D<shape>|A<keys|_>
 <con>   = type/key/data/bounds/geom/ring/size/cmaxes/coords/ancils
@@ -15,8 +17,13 @@ A key inside an operation may be `#i` = the key returned by operation i; in the 
 that was returned by an operation is printed as `#i` (latest i), so that the automatically generated
 identifiers are compared up to renaming.
 
-<op> = setc:<f|d>:<con with key `-`>:<key|_>:<keys|_>      delc:<f|d>:<key>
-       setd:<shape>:<keys|_>    deld    setda:<keys>    setdak:<f|d>:<keys>:<key>    delda    deldak:<f|d>:<key>
+<via> = f (the field) | d (f.domain) | s (Domain(source=f, copy=False)) | c (Domain.fromconstructs(f.constructs))
+        | v (Domain(source=f.domain, copy=False), a view of a view): d, s, c, v are live views of the same dictionaries
+<op> = setc:<via>:<con with key `-`>:<key|_>:<keys|_>      delc:<via>:<key>
+       setd:<shape>:<keys|_>    setdn:<shape>:<keys|_> (inplace=False)    deld    setda:<keys>
+       setdak:<via>:<keys>:<key>    delda    deldak:<via>:<key>
+       mut:<key>:<data|deldata|bounds|delbounds|size>:<shape|n|_>   (a mutator called on the contained construct)
+       frame   (a mutation of a container with dictionaries of its own that was derived from the field)
        replace:<key>:<con>:<keys|_>    copy    sub:<a-b+a-b…|n>    squeeze:<idx|_>:<0|1>
        transpose:<idx|_>:<0|1>:<0|1>    insdim:<key|_>:<pos>:<0|1>:<0|1>    convert:<key>:<0|1>
 -/
@@ -30,12 +37,17 @@ def typeNames : List (String × CType) :=
 def parseType (s : String) : Option CType := (typeNames.find? (fun p => p.1 == s)).map (·.2)
 def showType (t : CType) : String := ((typeNames.find? (fun p => p.2 = t)).map (·.1)).getD "?"
 
+/-- An identifier of the standard form `<base><number>` (non-empty base, canonical number) is the key
+`⟨base, number⟩`.  Any other string `s` (no digits at the end, a leading zero, digits only) is a legal
+construct identifier too: it is carried as `⟨s ++ "$", 0⟩`, which no automatic identifier
+(`⟨CType.base, n⟩`) and no standard identifier can equal (`$` does not occur in the protocol). -/
 def parseKeyLit (s : String) : Option Key :=
   let cs := s.toList
   let digs := (cs.reverse.takeWhile Char.isDigit).reverse
   let base := cs.take (cs.length - digs.length)
-  if digs.isEmpty || base.isEmpty then none
-  else if digs.length > 1 && digs.head? == some '0' then none
+  if cs.isEmpty || cs.contains '$' then none
+  else if digs.isEmpty || base.isEmpty then some ⟨s ++ "$", 0⟩
+  else if digs.length > 1 && digs.head? == some '0' then some ⟨s ++ "$", 0⟩
   else (String.ofList digs).toNat?.map (fun n => ⟨String.ofList base, n⟩)
 
 abbrev Ret := List (Option Key)
@@ -48,7 +60,8 @@ def parseKey (ret : Ret) (s : String) : Option Key :=
     | none => none
   else parseKeyLit s
 
-def showKeyLit (k : Key) : String := k.base ++ toString k.num
+def showKeyLit (k : Key) : String :=
+  if k.base.endsWith "$" then (k.base.dropEnd 1).toString else k.base ++ toString k.num
 
 /-- latest operation that returned this key -/
 def showKey (ret : Ret) (k : Key) : String :=
@@ -169,6 +182,9 @@ def parseView (s : String) : Option Bool :=
   match s with
   | "f" => some false
   | "d" => some true
+  | "s" => some true
+  | "c" => some true
+  | "v" => some true
   | _ => none
 
 def parseIdx (s : String) : Option (Option (List Nat)) :=
@@ -183,8 +199,15 @@ def parseSlices (s : String) : Option (List (Nat × Nat)) :=
     | [a, b] => do some ((← a.toNat?), (← b.toNat?))
     | _ => none)
 
+/-- the head of an operation may carry `@n`: which of several public routes the harness took to the same
+call (`frame@2`, `mut@3:…`); the model does not distinguish them -/
+def stripRoute (l : List String) : List String :=
+  match l with
+  | h :: r => ((h.splitOn "@").headD h) :: r
+  | [] => []
+
 def parseOp (ret : Ret) (s : String) : Option Op :=
-  match s.splitOn ":" with
+  match stripRoute (s.splitOn ":") with
   | ["setc", v, c, k, ax] => do
     let (t, _, con) ← parseCon ret c
     let k ← if k == "_" then some none else (parseKey ret k).map some
@@ -194,6 +217,24 @@ def parseOp (ret : Ret) (s : String) : Option Op :=
     match (← parseShape shp) with
     | some l => some (.setd l (← parseOptKeys ret ax))
     | none => none
+  | ["setdn", shp, ax] => do
+    match (← parseShape shp) with
+    | some l => some (.setdn l (← parseOptKeys ret ax))
+    | none => none
+  | ["frame"] => some .frame
+  | ["mut", k, what, arg] => do
+    let k ← parseKey ret k
+    match what with
+    | "data" => match (← parseShape arg) with
+      | some l => some (.mutate k (.setData l))
+      | none => none
+    | "deldata" => if arg == "_" then some (.mutate k .delData) else none
+    | "bounds" => match (← parseShape arg) with
+      | some l => some (.mutate k (.setBounds l))
+      | none => none
+    | "delbounds" => if arg == "_" then some (.mutate k .delBounds) else none
+    | "size" => arg.toNat?.map (fun n => .mutate k (.setSize n))
+    | _ => none
   | ["deld"] => some .deld
   | ["setda", ax] => do some (.setda (← parseKeys ret ax))
   | ["setdak", v, ax, k] => do some (.setdak (← parseView v) (← parseKeys ret ax) (← parseKey ret k))
@@ -208,28 +249,33 @@ def parseOp (ret : Ret) (s : String) : Option Op :=
   | ["transpose", ax, cs, ip] => do
     let cs ← parseBool cs
     let ip ← parseBool ip
-    if cs && ip then none else some (.transpose (← parseIdx ax) cs ip)
+    some (.transpose (← parseIdx ax) cs ip)
   | ["insdim", k, pos, cs, ip] => do
     let k ← if k == "_" then some none else (parseKey ret k).map some
     let cs ← parseBool cs
     let ip ← parseBool ip
-    if cs && ip then none else some (.insdim k (← pos.toNat?) cs ip)
+    some (.insdim k (← pos.toNat?) cs ip)
   | ["convert", k, full] => do some (.convert (← parseKey ret k) (← parseBool full))
   | _ => none
 
-/-- replay the operation list; `none` = an operation could not be parsed.  With `lenient` the replay
-stops instead (the model of the code as it is may reject an operation whose returned key a later
-operation refers to). -/
-def replay (pt : Bool) (lenient : Bool) : St → Ret → List String → List String → Option (List String)
+/-- the state left by a rejected call depends on the order in which Python walks the dictionaries -/
+def orderDependent : Op → Bool
+  | .transpose _ cs ip => cs && ip
+  | .insdim _ _ cs ip => cs && ip
+  | _ => false
+
+/-- replay the operation list; `none` = an operation could not be parsed -/
+def replay : St → Ret → List String → List String → Option (List String)
   | _, _, [], acc => some acc.reverse
   | s, ret, o :: rest, acc =>
     match parseOp ret o with
-    | none => if lenient then some ("?" :: acc).reverse else none
+    | none => none
     | some op =>
-      let (s', out) := stepP pt s op
+      let (s', out) := step s op
       let ret' := ret ++ [match out with | .ok k => k | .rejected => none]
+      if orderDependent op && !out.isOk then some ("rej@~@~" :: acc).reverse else
       let line := (if out.isOk then "ok" else "rej") ++ "@" ++ (if decide (Inv s') then "1" else "0") ++ "@" ++ showState ret' s'
-      replay pt lenient s' ret' rest (line :: acc)
+      replay s' ret' rest (line :: acc)
 
 def runHist (kv : KV) : String :=
   match kv.get? "init", kv.get? "ops" with
@@ -238,10 +284,9 @@ def runHist (kv : KV) : String :=
     | none => "bad-op"
     | some s0 =>
       let ops := if o == "-" then [] else o.splitOn ";"
-      match replay true false s0 [] ops [], replay false true s0 [] ops [] with
-      | some p, some q =>
-        "I=" ++ (if decide (Inv s0) then "1" else "0") ++ " P=" ++ String.intercalate ";;" p ++ " O=" ++ String.intercalate ";;" q
-      | _, _ => "bad-op"
+      match replay s0 [] ops [] with
+      | some p => "I=" ++ (if decide (Inv s0) then "1" else "0") ++ " P=" ++ String.intercalate ";;" p
+      | none => "bad-op"
   | _, _ => "bad-op"
 
 def run (sub : String) (kv : KV) : String :=
